@@ -11,6 +11,10 @@ EXPECT = {
     # id: (expectation, reason)
     "seeded-C05-1": ("accepted-miss", "changes value arithmetic of the weight computation only; no structural clause is touched (DESIGN section 6)"),
     "seeded-C05-2": ("accepted-miss", "changes value arithmetic of the weight computation only"),
+    "seeded-C05-4": ("accepted-miss", "suppresses the propagation of a pending tuple cycle inside calculateEdgeWeight: value logic of the cycle bookkeeping"),
+    "seeded-C05-5": ("accepted-miss", "changes where isTupleCycle starts looking in the ancestor path: value logic of the back-edge classification"),
+    "seeded-C14-5": ("accepted-miss", "changes which models count as modular (any → all): a predicate over the model, no structural clause"),
+    "seeded-C03-6": ("accepted-miss", "grammar and Go automaton edited consistently; reported by C19 (other targets differ), not by C03"),
     "survey-C08-noguard-recurse": ("silent", "negative control: the removed guard is redundant under the grammar typestate"),
     "survey-C17-reversed-shares-ids": ("silent", "negative control: ids are immutable strings, sharing them is unobservable"),
     "survey-C17-upsert-plain-nonorm": ("silent", "negative control: behaviour-preserving"),
